@@ -4199,3 +4199,91 @@ func E9DirectionFallbackSymmetric(c *core.Ctx, r *core.Report) {
 		r.OK("E9.direction-fallback-symmetric", key, c.Pos(fd.Pos()), show(s0)+" | "+show(s1))
 	}
 }
+
+// E9SquareRangeBothEnds: Lower and Upper of a tolerance square are set together.
+func E9SquareRangeBothEnds(c *core.Ctx, r *core.Report) {
+	r.Rule("E9.square-range-both-ends", "the segments that cross a tolerance square are the status nodes from square.Lower to square.Upper, and both users of that range (the break-up loop of breakupCrossingSegments and the re-sort in bentleyOttmann) test only `Lower != nil`. So the two ends are set together: every block of breakupCrossingSegments that assigns one of them from a node also assigns the other from the same node — in the same statement, or under a test that the other end is still nil. The upward scan that stores Upper alone leaves Lower nil when the reference node lies below the square; the segments through the square are then neither split nor snapped, and the contour walk panics")
+	p := c.MustPkg("")
+	info := p.TypesInfo
+	fd := core.MustFuncDecl(p, "toleranceSquares.breakupCrossingSegments")
+	isEnd := func(e ast.Expr) string {
+		se, ok := core.Unparen(e).(*ast.SelectorExpr)
+		if !ok || (se.Sel.Name != "Lower" && se.Sel.Name != "Upper") {
+			return ""
+		}
+		if t := info.TypeOf(se.X); t == nil || !strings.Contains(t.String(), "toleranceSquare") {
+			return ""
+		}
+		return se.Sel.Name
+	}
+	other := map[string]string{"Lower": "Upper", "Upper": "Lower"}
+	n := 0
+	var visit func(list []ast.Stmt)
+	visit = func(list []ast.Stmt) {
+		// assignments of the block itself, and those under an `if <other> == nil` of the block
+		direct := map[string]string{}  // end -> rhs source
+		guarded := map[string]string{} // end -> rhs source, assigned under a nil test of that end
+		var pos = map[string]token.Pos{}
+		for _, st := range list {
+			switch x := st.(type) {
+			case *ast.AssignStmt:
+				if x.Tok != token.ASSIGN || len(x.Lhs) != len(x.Rhs) {
+					continue
+				}
+				for i, l := range x.Lhs {
+					if e := isEnd(l); e != "" {
+						direct[e] = c.Src(x.Rhs[i])
+						pos[e] = x.Pos()
+					}
+				}
+			case *ast.IfStmt:
+				// if square.E == nil { square.E = v }
+				if be, ok := core.Unparen(x.Cond).(*ast.BinaryExpr); ok && be.Op == token.EQL {
+					e := isEnd(be.X)
+					if e == "" {
+						e = isEnd(be.Y)
+					}
+					if e != "" {
+						for _, bs := range x.Body.List {
+							if as, ok := bs.(*ast.AssignStmt); ok && len(as.Lhs) == len(as.Rhs) {
+								for i, l := range as.Lhs {
+									if isEnd(l) == e {
+										guarded[e] = c.Src(as.Rhs[i])
+									}
+								}
+							}
+						}
+					}
+				}
+			}
+		}
+		for e, rhs := range direct {
+			n++
+			key := fmt.Sprintf("canvas.toleranceSquares.breakupCrossingSegments|%s assigned #%d with its other end", e, n)
+			o := other[e]
+			if direct[o] == rhs || guarded[o] == rhs {
+				r.OK("E9.square-range-both-ends", key, c.Pos(pos[e]), "")
+			} else {
+				r.Fail("E9.square-range-both-ends", key, c.Pos(pos[e]), fmt.Sprintf("this block stores `%s` in square.%s and leaves square.%s as it is: when it is still nil (the reference node lies on the other side of the square) the range is half open, both users skip the square, its segments are not snapped and the contour walk panics (`M4 3L2 7L1 2z` Or `M6 9L2 1L3 6L3 5z`)", rhs, e, o))
+			}
+		}
+		for _, st := range list {
+			ast.Inspect(st, func(k ast.Node) bool {
+				// the body of `if square.E == nil { square.E = v }` was accounted for as the guarded half
+				if is, ok := k.(*ast.IfStmt); ok {
+					if be, ok := core.Unparen(is.Cond).(*ast.BinaryExpr); ok && be.Op == token.EQL && (isEnd(be.X) != "" || isEnd(be.Y) != "") {
+						return false
+					}
+				}
+				if b, ok := k.(*ast.BlockStmt); ok {
+					visit(b.List)
+					return false
+				}
+				return true
+			})
+		}
+	}
+	visit(fd.Body.List)
+	r.Count("E9.square-range-ends", n)
+	r.Floor("E9.square-range-ends", 3)
+}
